@@ -324,3 +324,124 @@ def download_walk_post(S):
 
 
 c.ensures(download_walk_post, "creates-the-destination-lists-source-and-downloads-each-file-or-dir-entry-once-to-its-place")
+
+
+# ------------------------------------------------------------------------------------ download: listings of ANY length
+from pyvc.objseq import ObjSeq  # noqa: E402
+
+BELOW = z3.Array("listed_below", z3.IntSort(), models_path.SS)
+ETYPE = z3.Array("listed_type", z3.IntSort(), z3.StringSort())
+
+
+def setup_download_walk_any(u):
+    it = u.it
+    mod, fn = _fn(it, "download")
+    body = _dir_branch(fn, "download")
+    source = mk_path(u, "source", ["", "/"][u.choose(2, "source-absolute")])
+    dest = mk_path(u, "dest", "/")
+    bs = fresh("int", "block_size")
+    calls = []
+    head = {"n": 0}
+
+    def make(it_, idx):
+        p = PathVal("posix", source.anchor, z3.Concat(source.parts, BELOW[idx]), abs_known=source.abs_known)
+        p.entry_index = idx
+        return (p, {"type": SV("str", ETYPE[idx])})
+
+    table = ObjSeq("listing", make)
+
+    def rec(name):
+        def f(i, a, k):
+            def run():
+                i.suspend(name)
+                calls.append((name, a[1:], k))
+
+            return Coro(run, name)
+
+        b = Builtin("Client." + name, f)
+        b.is_method = True
+        return b
+
+    def list_(i, a, k):
+        def run():
+            i.suspend("list")
+            calls.append(("list", a[1:], k))
+            return table
+
+        return Coro(run, "list")
+
+    lb = Builtin("Client.list", list_)
+    lb.is_method = True
+
+    class LocalIO(Model):
+        model_name = "local_path_io"
+
+        def getattr(self, i, name):
+            if name == "mkdir":
+
+                def mk(i2, a, k):
+                    def run():
+                        i2.suspend("mkdir")
+                        calls.append(("mkdir", a, k))
+
+                    return Coro(run, "mkdir")
+
+                return Builtin("path_io.mkdir", mk)
+            raise Unsupported("path_io." + name)
+
+    cl = Obj(u.cls(CLIENT, "Client"), tag="client")
+    cl.cls = type(cl.cls)(cl.cls.name, [cl.cls], {"download": rec("download"), "list": lb})
+    cl.fields["path_io"] = LocalIO()
+    env = Env(mod.env)
+    env.vars.update(self=cl, source=source, destination=dest, block_size=bs)
+
+    def ghost(i, e, phase):
+        if phase != "step":
+            return
+        k = e.vars["_i"]
+        k = k.t if isinstance(k, SV) else z3.IntVal(k)
+        idx = z3.simplify(k - 1)
+        new = calls[head["n"]:]
+        wanted = z3.Or(ETYPE[idx] == z3.StringVal("file"), ETYPE[idx] == z3.StringVal("dir"))
+        if not new:
+            i.ctx.check("Client.download/walk:an-entry-is-skipped-only-when-it-is-neither-file-nor-dir", z3.Not(wanted), info=T9)
+            return
+        ok = len(new) == 1 and new[0][0] == "download" and len(new[0][1]) == 2 and new[0][2].get("write_into") is True and new[0][2].get("block_size") is bs and set(new[0][2]) == {"write_into", "block_size"}
+        if not ok:
+            i.ctx.check("Client.download/walk:each-file-or-dir-entry-is-downloaded-once-to-its-place", z3.BoolVal(False), info=T9)
+            return
+        name, full = new[0][1]
+        f = z3.And(wanted, z3.BoolVal(getattr(name, "entry_index", None) is not None), full.anchor_t() == dest.anchor_t(), full.parts == z3.Concat(dest.parts, BELOW[idx]))
+        if getattr(name, "entry_index", None) is not None:
+            f = z3.And(f, name.entry_index == idx)
+        i.ctx.check("Client.download/walk:each-file-or-dir-entry-is-downloaded-once-to-its-place", f, info=T9)
+
+    def havoc(i, e):
+        head["n"] = len(calls)
+
+    it.hooks["block_loop"] = LoopSpec(invariants=[], havoc=havoc, ghost=ghost)
+
+    def run(i, a, k):
+        def go():
+            i.exec_block(body, env, "Client.download.<locals>")
+
+        return Coro(go, "download-directory-branch")
+
+    return Builtin("Client.download/directory-walk", run), [], {}, {"calls": calls, "dest": dest, "source": source}
+
+
+c = contract(CLIENT, "Client.download", props=["C09"], name="Client.download/directory-walk#any-listing")
+c.setup = setup_download_walk_any
+c.raises_("CancelledError")
+c.assumptions.append("as Client.download/directory-walk, with a listing of any length: the per-iteration obligation (entry i is downloaded exactly once to destination/<its path below source> iff its type is file or dir) holds for an arbitrary iteration; 'every entry, in order' follows by induction over the loop")
+
+
+def download_walk_any_post(S):
+    calls = S.vars["calls"]
+    if len(calls) < 2 or calls[0][0] != "mkdir" or calls[1][0] != "list":
+        return False
+    a, k = calls[0][1], calls[0][2]
+    return bool(len(a) == 1 and a[0] is S.vars["dest"] and k.get("parents") is True and k.get("exist_ok") is True and len(calls[1][1]) == 1 and calls[1][1][0] is S.vars["source"])
+
+
+c.ensures(download_walk_any_post, "creates-the-destination-then-lists-source")
